@@ -393,9 +393,13 @@ func (b *Broker) RegisterPipeline(def Pipeline, opt ...Option) error {
 		registrationPolicy: opts.withPipelineRegistrationPolicy,
 	}
 
-	// Store the pipeline and then update the reference count of the nodes in that pipeline.
+	// If we're overwriting a pipeline, its nodes are no longer referenced by it.
+	b.releaseNodes(g, def.PipelineID)
+
+	// Store the pipeline and then update the reference count of the nodes in
+	// that pipeline (a node listed more than once is still only referenced once).
 	g.roots.Store(def.PipelineID, pipelineReg)
-	for _, id := range def.NodeIDs {
+	for id := range root.flatten() {
 		nodeUsage, ok := b.nodes[id]
 		// We can be optimistic about this as we would have already errored above.
 		if ok {
@@ -404,6 +408,21 @@ func (b *Broker) RegisterPipeline(def Pipeline, opt ...Option) error {
 	}
 
 	return nil
+}
+
+// releaseNodes decrements the reference count of the nodes referenced by the
+// specified pipeline (if it is registered).  The nodes remain registered.
+// This function assumes that the caller holds a lock
+func (b *Broker) releaseNodes(g *graph, id PipelineID) {
+	nodes, err := g.roots.Nodes(id)
+	if err != nil {
+		return
+	}
+	for _, nodeID := range nodes {
+		if nodeUsage, ok := b.nodes[nodeID]; ok && nodeUsage.referenceCount > 0 {
+			nodeUsage.referenceCount--
+		}
+	}
 }
 
 // RemovePipeline removes a pipeline from the broker.
@@ -423,6 +442,7 @@ func (b *Broker) RemovePipeline(t EventType, id PipelineID) error {
 		return fmt.Errorf("no graph for EventType %s", t)
 	}
 
+	b.releaseNodes(g, id)
 	g.roots.Delete(id)
 	return nil
 }
